@@ -83,6 +83,14 @@ def stmt_failure(zero, a, b, idx_nm, r, fy, fx):
     want_pol = np.array([[np.hypot(v[0], v[1]), np.arctan2(v[0], v[1])] for v in (a, b)])
     if np.abs(pol[:, 0] - want_pol[:, 0]).max() > 1e-9 * sc or np.abs(np.exp(1j * pol[:, 1]) - np.exp(1j * want_pol[:, 1])).max() > 1e-9:
         return 'make_polar(v) != (|v|, angle of v): %s vs %s' % (pol.tolist(), want_pol.tolist())
+    # stacks of vectors (n, m, 2), e.g. one pair of lattice vectors per scan position: element-wise, shape preserved
+    stk = np.array([[a, b, a + b], [b - a, 2 * a, -b]])
+    ps = bu.make_polar(stk)
+    if ps.shape != stk.shape or np.abs(ps[..., 0] - np.hypot(stk[..., 0], stk[..., 1])).max() > 1e-9 * sc \
+            or np.abs(np.exp(1j * ps[..., 1]) - np.exp(1j * np.arctan2(stk[..., 0], stk[..., 1]))).max() > 1e-9:
+        return 'make_polar of a (2, 3, 2) stack of vectors: shape %s, not the element-wise (|v|, angle)' % (ps.shape,)
+    if np.abs(bu.make_cartesian(ps) - stk).max() > 1e-9 * sc:
+        return 'make_cartesian(make_polar(stack)) != stack'
     # the dtype of the arguments must not matter: whole-pixel lattice vectors / zero given as integer arrays
     if np.array_equal(a, np.rint(a)) and np.array_equal(b, np.rint(b)) and np.array_equal(zero, np.rint(zero)):
         zi, ai, bi_ = zero.astype(np.int64), a.astype(np.int64), b.astype(np.int64)
